@@ -1047,8 +1047,8 @@ func plans() []plan {
 	g := func(name string, nprov int, pre []int, th [][]step, w, qw float64) plan {
 		return plan{sc: scen{name: name, nprov: nprov, pre: pre, threads: th, gated: true}, weight: w, qweight: qw, quickTier: qw > 0, thorTier: true}
 	}
-	f := func(name string, nprov int, pre []int, th [][]step, q, t int, w float64) plan {
-		return plan{sc: scen{name: name, nprov: nprov, pre: pre, threads: th}, quick: q, thorough: t, weight: w, qweight: 2 * w, quickTier: true, thorTier: true}
+	f := func(name string, nprov int, pre []int, th [][]step, q, t int, w, qw float64) plan {
+		return plan{sc: scen{name: name, nprov: nprov, pre: pre, threads: th}, quick: q, thorough: t, weight: w, qweight: qw, quickTier: true, thorTier: true}
 	}
 	// Fault scenarios (storage-level mode with a failing store: all interleavings x failures at every
 	// position). The variants have different names because the set of answers of a Choose and the
@@ -1066,43 +1066,47 @@ func plans() []plan {
 		return plan{sc: scen{name: name, nprov: nprov, pre: pre, threads: th, faults: true, ambig: ambig}, quick: q, thorough: t, qenv: 1, tenv: 1, weight: w, quickTier: quick, thorTier: !quick}
 	}
 	p2 := []int{1}
+	// Weights = measured sizes in thousands of executions (thorough, quick; with a floor for the
+	// small ones, whose cost is the start-up), so that the shares of the time budget follow the work.
 	ps := []plan{
 		// storage-level mode: every interleaving of the storage calls (bound 0 is already unbounded)
-		g("S1-all", 2, nil, s1, 0.2, 0.5),
-		g("S4-all", 2, nil, s4, 0.2, 0.5),
-		g("S3-all", 3, p2, s3, 1, 3),
-		g("S7-all", 3, p2, s7, 1, 3),
-		g("S2-all", 3, nil, s2, 3, 14),
-		g("S5-all", 3, nil, s5, 5, 0),
-		g("S6-all", 3, p2, s6, 3, 0),
-		g("S5r-all", 3, nil, s5r, 14, 0),
+		g("S1-all", 2, nil, s1, 1, 2),
+		g("S4-all", 2, nil, s4, 1, 2),
+		g("S3-all", 3, p2, s3, 3, 4),
+		g("S7-all", 3, p2, s7, 3, 4),
+		g("S2-all", 3, nil, s2, 12, 14),
+		g("S5-all", 3, nil, s5, 21, 0),
+		g("S6-all", 3, p2, s6, 6, 0),
+		g("S5r-all", 3, nil, s5r, 238, 0),
 	}
 	ps = append(ps, plan{sc: scen{name: "S8-selfreattach", nprov: 2, pre: p2, threads: s8, gated: true}, weight: 1})
-	// quick tier: two failures in the two-provider shapes, one in the three-provider shapes
 	ps = append(ps,
-		gf("S0-fault", 2, nil, s0, false, false, 2, 0, 6),
-		gf("S1-fault", 2, nil, s1, false, false, 2, 0, 11),
-		gf("S4-fault", 2, nil, s4, false, false, 2, 0, 17),
+		// quick tier: two failures in the two-provider shapes, one (no retries) in the three-provider shape S3
+		gf("S0-fault", 2, nil, s0, false, false, 2, 0, 5),
+		gf("S1-fault", 2, nil, s1, false, false, 2, 0, 10),
+		gf("S4-fault", 2, nil, s4, false, false, 2, 0, 16),
 		gf("S3-faultn", 3, p2, s3, false, true, 1, 0, 13),
-		gf("S7-faultn", 3, p2, s7, false, true, 1, 0, 13),
-		// thorough tier
-		gf("S0-faultx", 2, nil, s0, true, false, 0, 2, 4),
-		gf("S1-faultx", 2, nil, s1, true, false, 0, 2, 8),
-		gf("S4-faultx", 2, nil, s4, true, false, 0, 2, 12),
-		gf("S3-faultx", 3, p2, s3, true, false, 0, 1, 30),
-		gf("S7-faultxn", 3, p2, s7, true, true, 0, 1, 4),
-		gf("S2-faultxn", 3, nil, s2, true, true, 0, 1, 20))
+		// thorough tier: two failures incl. the lost-acknowledgement mode in the two-provider shapes;
+		// one failure in the three-provider shapes (S3 with retries, and all three with the
+		// lost-acknowledgement mode but without retries)
+		gf("S0-faultx", 2, nil, s0, true, false, 0, 2, 6),
+		gf("S1-faultx", 2, nil, s1, true, false, 0, 2, 25),
+		gf("S4-faultx", 2, nil, s4, true, false, 0, 2, 40),
+		gf("S3-fault", 3, p2, s3, false, false, 0, 1, 118),
+		gf("S3-faultxn", 3, p2, s3, true, true, 0, 1, 16),
+		gf("S7-faultxn", 3, p2, s7, true, true, 0, 1, 16),
+		gf("S2-faultxn", 3, nil, s2, true, true, 0, 1, 110))
 	// full mode: every hooked mutex/atomic operation is a scheduling point as well
 	ps = append(ps,
-		f("S1-full", 2, nil, s1, 2, 4, 0.5),
-		f("S4-full", 2, nil, s4, 2, 4, 0.5),
-		f("S3-full", 3, p2, s3, 1, 3, 2),
-		f("S2-full", 3, nil, s2, 1, 2, 1),
-		f("S5-full", 3, nil, s5, 1, 2, 1),
+		f("S1-full", 2, nil, s1, 2, 4, 10, 1),
+		f("S4-full", 2, nil, s4, 2, 4, 17, 1.2),
+		f("S3-full", 3, p2, s3, 1, 3, 84, 1),
+		f("S2-full", 3, nil, s2, 1, 2, 12, 1),
+		f("S5-full", 3, nil, s5, 1, 2, 14, 1),
 		ff("S1-full-fault", 2, nil, s1, false, 1, 1, true, 1),
 		ff("S4-full-fault", 2, nil, s4, false, 1, 1, true, 1),
-		ff("S1-full-faultx", 2, nil, s1, true, 2, 2, false, 2),
-		ff("S4-full-faultx", 2, nil, s4, true, 2, 2, false, 2))
+		ff("S1-full-faultx", 2, nil, s1, true, 2, 2, false, 6),
+		ff("S4-full-faultx", 2, nil, s4, true, 2, 2, false, 7))
 	return ps
 }
 
@@ -1137,7 +1141,7 @@ func TestCheck(t *testing.T) {
 		for _, sc := range list {
 			names = append(names, sc.Name)
 		}
-		c.Note("scope", fmt.Sprintf("scenarios run in this tier: %v. '-all' = storage-level mode: scheduling decisions only at storage calls (provider-local code runs as forced moves), every choice free, so the reported 'bound 0' is ALL interleavings of the storage calls; '-fault' = the same with a failing store: every storage call of a managed thread asks the environment whether it fails, '(+k injected faults)' = every placement of at most k failures combined with all interleavings, the object is created and the earlier attaches are made by the first managed thread so that they can fail too; '-full' = every hooked mutex/atomic operation and every storage call is a scheduling point, all schedules up to the listed preemption bound ('-full-fault': plus the failures). states = distinct storage-call interleavings (calls with their results incl. injected failures, per scenario shape) + distinct outcomes.", names))
+		c.Note("scope", fmt.Sprintf("scenarios run in this tier: %v. '-all' = storage-level mode: scheduling decisions only at storage calls (provider-local code runs as forced moves), every choice free, so the reported 'bound 0' is ALL interleavings of the storage calls; '-fault*' = the same with a failing store: every storage call of a managed thread asks the environment whether it fails (no effect on the store; 'x' in the suffix: Delete and writer Close may also take effect and then report failure), '(+k injected faults)' = every placement of at most k failures combined with all interleavings, the object is created and the earlier attaches are made by the first managed thread so that they can fail too, a failed attach/read/Remove of the racing part is retried once unless the suffix has an 'n'; '-full' = every hooked mutex/atomic operation and every storage call is a scheduling point, all schedules up to the listed preemption bound ('-full-fault': plus the failures). states = distinct storage-call interleavings (calls with their results incl. injected failures, per scenario shape) + distinct outcomes.", names))
 		d1x.Run(t, c, list)
 	})
 }
